@@ -454,7 +454,8 @@ void UtilContext::print32(const char *token)
     if (end != 0xffffffff) { end++; }
   }
 
-  if ((start & (alignment - 1)) != 0)
+  // At most 4 byte alignment is needed for an int32 (alignment can be 8, 16).
+  if ((start & ((alignment - 1) & 0x3)) != 0)
   {
     printf("Address range 0x%04x to 0x%04x must start on a 4 byte boundary.\n",
       start, end);
@@ -585,7 +586,8 @@ void UtilContext::write32(const char *token)
 
   if (token == nullptr) { printf("Syntax error: bad address\n"); return; }
 
-  if ((address & (alignment - 1)) != 0)
+  // At most 4 byte alignment is needed for an int32 (alignment can be 8, 16).
+  if ((address & ((alignment - 1) & 0x3)) != 0)
   {
     printf("Error: write32 address is not 32 bit aligned\n");
     return;
